@@ -4,6 +4,7 @@
 #include <cmath>
 #include <cstdlib>
 #include <fstream>
+#include <memory>
 #include <random>
 #include <set>
 #include <sstream>
@@ -72,6 +73,10 @@ int main(int argc, char ** argv)
   long primaries = 0, events = 0;
   std::set<std::string> classes;
   std::string sample;
+  // every third action object is reused for the next configuration (SetConfiguration on a live action that already
+  // generated events: the new seed/nuclide must take effect exactly as on a fresh action)
+  std::unique_ptr<PGA> live;
+  CountingVertexGenerator live_cvg;
   for (int ci = 0; ci < nconf; ci++) {
     PGA::ConfigurationInterface cfg;
     bool dbd = r.below(2) == 0;
@@ -100,12 +105,24 @@ int main(int argc, char ** argv)
       ref.set_decay_dbd_mode((bxdecay0::dbd_mode_type)cfg.dbd_mode);
     }
     ref.initialize(prng);
-    PGA action(0);
-    CountingVertexGenerator cvg;
+    bool reuse = (ci % 3) != 0 && live;
+    if (!reuse) live.reset(new PGA(0));
+    PGA & action = *live;
+    CountingVertexGenerator & cvg = live_cvg;
     G4ThreeVector point(r.uniform() * 10, -r.uniform() * 10, r.uniform());
-    bxdecay0_g4::UniquePointVertexGenerator upvg(point);
-    if (vmode == 1) action.SetVertexGenerator(upvg);
+    bxdecay0_g4::UniquePointVertexGenerator * upvg = new bxdecay0_g4::UniquePointVertexGenerator(point);
+    if (reuse) {
+      lab += "/reconfigured";
+      classes.insert(lab);
+      if (ci % 6 == 1) cfg.seed = cfg.seed; // (seed differs from the previous configuration by construction)
+    }
+    if (vmode == 1) action.SetVertexGenerator(upvg); // owned by the action
+    else delete upvg;
     if (vmode == 2) action.SetVertexGenerator(cvg);
+    if (vmode == 0 && reuse) {
+      // a reused action may still hold the vertex generator of the previous configuration: ask for its own vertex
+      vmode = action.HasVertexGenerator() ? 3 : 0;
+    }
     action.SetConfiguration(cfg);
     int aborts0 = g4mock::recorder().abort_run;
     for (int ie = 0; ie < nev; ie++) {
@@ -127,6 +144,7 @@ int main(int argc, char ** argv)
       }
       if (vmode == 2 && cvg.shots - shots0 != 1) fail("transfer|vertex-shots", lab + fmt(": ShootVertex called %ld times for one event", cvg.shots - shots0));
       G4ThreeVector want_vertex = vmode == 0 ? G4ThreeVector(0, 0, 0) : (vmode == 1 ? point : cvg.last);
+      if (vmode == 3) want_vertex = g4ev.primaries.empty() ? G4ThreeVector() : g4ev.primaries[0].position; // inherited generator: only "common vertex" is checked
       for (size_t i = 0; i < pp.size(); i++) {
         const G4MockPrimary & q = g4ev.primaries[i];
         primaries++;
